@@ -148,11 +148,39 @@ def jax_template(ctx: Ctx, rule: str):
     else:
         ctx.check("import jax.numpy as numpy" in txt and "jax_enable_x64" in txt, rule, g.key("imports"), "numpy is jax.numpy with 64 bit enabled", "JaxCodeGenerator.imports no longer binds numpy to jax.numpy with x64 enabled", g.where())
     gen = sm.cls("codegen/jax.py", "JaxCodeGenerator")
-    initf = gen.methods.get("__init__")
-    okpr = initf is not None and any(isinstance(n, ast.Assign) and norm(n.targets[0]) == "self._printer" and norm(n.value) == "JaxPrinter()" for n in ast.walk(initf.node))
+    # which printer an instance gets: the first __init__ along the class chain that sets self._printer, with a class
+    # attribute (`printer_class = JaxPrinter`) resolved from the subclass down
+    from sa import av as _av
+
+    chain = [gen] + [c for b in gen.bases for c in [sm.cls("codegen/python.py", b.split(".")[-1], required=False)] if c is not None]
+    printer_expr = None
+    for c_ in chain:
+        initf = c_.methods.get("__init__")
+        if initf is None:
+            continue
+        sets = [n.value for n in ast.walk(initf.node) if isinstance(n, ast.Assign) and norm(n.targets[0]) == "self._printer"]
+        if sets:
+            printer_expr = sets[-1]
+            break
+    pk = None  # name of the class that is instantiated
+    if isinstance(printer_expr, ast.Call):
+        fn_ = printer_expr.func
+        if isinstance(fn_, ast.Name):
+            pk = fn_.id
+        elif isinstance(fn_, ast.Attribute) and norm(fn_.value) in ("self", "type(self)", "self.__class__"):
+            for c_ in chain:
+                v_ = c_.class_assigns().get(fn_.attr)
+                if v_ is not None:
+                    pk = norm(v_).split(".")[-1]
+                    break
     tp = gen.methods.get("template")
-    okt = tp is not None and any(isinstance(n, ast.Return) and norm(n.value) == "templates.jax" for n in ast.walk(tp.node))
-    ctx.check(okpr and okt, rule, f"src/gotranx/codegen/jax.py::JaxCodeGenerator::wiring", "JaxCodeGenerator uses JaxPrinter and templates.jax", "JaxCodeGenerator is not wired to JaxPrinter / templates.jax", gen.where())
+    tv = util.value_of(ctx, tp) if tp is not None else None
+    okt = tv == ("sym", "templates.jax")
+    wkey = "src/gotranx/codegen/jax.py::JaxCodeGenerator::wiring"
+    if pk is None or (tv is not None and not okt and _av.has_unk(tv)):
+        ctx.undecided(rule, wkey, "which printer / template module a JaxCodeGenerator uses is not understood", gen.where())
+    else:
+        ctx.check(pk == "JaxPrinter" and okt, rule, wkey, "JaxCodeGenerator uses JaxPrinter and templates.jax", f"JaxCodeGenerator is not wired to JaxPrinter / templates.jax (printer: {pk}, template: {_av.show(tv) if tv is not None else None})", gen.where())
 
 
 def jax_callable(ctx: Ctx, rule: str):
